@@ -12,15 +12,20 @@ from gv.model import dbutil
 from gv.model.refdb import RefDB, RefAbort, impl_state
 
 ID = "C10"
-RULE = ("explicit-state BFS over histories (first event: one of three initial databases - GFF3 chain with / without an id-less feature, GTF with inference disabled) of 22 GFF3 / 13 GTF events {update(7 bundles x strategies), delete (string / Feature / list forms), add_relation "
-        "(plain, with attribute rewrite), reopen} on a file database initialised with a 4-deep GFF3 chain plus an id-less exon; every "
-        "reached state is compared with the reference model (features in order, relation triples) through a second read-only connection, "
-        "and the .bak file with the pre-operation state; fault runs: for every representative state up to depth 2, four update bundles "
-        "with the feature source raising after k = 0..n items. A state is non-trivial when it differs from the initial state")
+RULE = ("explicit-state BFS over histories whose first event picks one of four initial databases (GFF3 4-deep chain with directives, with / "
+        "without an id-less feature, the same imported with recorded duplicates, GTF with inference disabled) followed by events from "
+        "{update (7 GFF3 / 5 GTF bundles x merge strategies, one bundle holding only directives and comments), delete (id string / Feature / "
+        "list / one-shot generator of ids / generator of Feature objects), add_relation (plain, with attribute rewrite, naming unknown "
+        "ids), reopen, set_pragmas} on one live object over a file database; every reached state is compared with the reference model "
+        "(features in row order with bins, relation triples, duplicates, directives, id counters) through a second read-only connection "
+        "AND through the live object (count, region on every seqid, children filtered by every featuretype), and the .bak file with the "
+        "pre-operation state; one large history (1000 features deleted in a single call, then an update); fault runs: for every representative state up to depth 2, four update "
+        "bundles with the feature source raising after k = 0..n items. A state is non-trivial when it differs from the initial state")
 ASSUMPTIONS = [
     "small-scope: histories up to the stated depth over the stated alphabet; 'randomly beyond' is not sampled",
     "after a failed operation only the .bak file is checked (the statement does not define the main file's content)",
-    "add_relation is only issued when both features exist and the triple is absent",
+    "add_relation between existing features is only issued when the triple is absent; add_relation naming an id that does not exist "
+    "is expected to be refused (FeatureNotFoundError, as the look-up by id does) and to change nothing",
     "canonical state = rows of features (rowid order), relations, autoincrements, duplicates + the live object's in-memory counters; "
     "sqlite_stat1, indexes and the number of meta rows are dropped (no public query reads them)",
 ]
